@@ -22,7 +22,11 @@ namespace nmtools::index
     template <typename vector_t, typename idx_t>
     constexpr auto tuple_at(const vector_t& vec, idx_t idx)
     {
-        using value_t = meta::get_element_or_common_type_t<vector_t>;
+        // the common type of a tuple of clipped integers is the type of ONE entry (its bounds would clamp the
+        // values of the other entries): read such a tuple through its plain index type
+        using common_t = meta::get_element_or_common_type_t<vector_t>;
+        using value_t = meta::conditional_t<meta::is_clipped_integer_v<common_t>
+            , meta::get_index_element_type_t<vector_t>, common_t>;
         static_assert( meta::is_num_v<value_t> || meta::is_index_v<value_t>
             , "unsupported tuple_at, element_type / common_type is not arithmentic"
         );
